@@ -14,9 +14,10 @@ fill_unknown (declared fields the harness does not know get a non-default value 
 import datetime
 import json
 import os
+import shutil
 import subprocess
 import sys
-from pathlib import PurePosixPath
+from pathlib import Path, PurePosixPath
 
 from . import aoef, aoef_impl, leanio
 from .c01_generic import generic, gdiff, walk_models
@@ -192,16 +193,29 @@ def roundtrip(inp):
     orig_g = generic(obj) if judge else None
     orig_d = aoef.dump(obj) if judge else None
     if judge and not inp.get("fill_unknown"):
-        d = aoef.diff(orig_d, cj)
+        d = None if orig_d == cj else aoef.diff(orig_d, cj)
         if d:
             out["built_differs"] = d             # the constructors normalised something: the built object is the original
     path = aoef_impl.tmp_path("rt")
+    opts = inp.get("io") or {}
+    nest = None
+    if opts.get("subdir"):                       # a directory that does not exist yet: `save` creates it
+        nest = path[:-5] + "_dir"
+        path = os.path.join(nest, "a b", "ünï", "doc.json")
+    skw, lkw = {}, {}
+    if "save_format" in opts:
+        skw["format"] = opts["save_format"]
+    if "load_format" in opts:
+        lkw["format"] = opts["load_format"]
+    if opts.get("load_type"):
+        lkw["type"] = cj["type"]
+    as_path = (lambda p: Path(p)) if opts.get("path_as") == "path" else (lambda p: p)
     try:
         for i in range(n):
             if os.path.exists(path):
                 os.remove(path)
-            io.save(obj, path, audio_dir=aoef_impl.adir(save_dir, how))
-            if fresh:
+            io.save(obj, as_path(path), audio_dir=aoef_impl.adir(save_dir, how), **skw)
+            if fresh and not lkw:
                 rep = FRESH.load(path, load_dir, how)
                 if "val" not in rep:
                     return {**out, **rep}
@@ -209,11 +223,11 @@ def roundtrip(inp):
                 if i + 1 < n:
                     obj = aoef.build(cur_d)
             else:
-                obj = io.load(path, audio_dir=aoef_impl.adir(load_dir, how))
+                obj = io.load(as_path(path), audio_dir=aoef_impl.adir(load_dir, how), **lkw)
                 cur_d, cur_g = aoef.dump(obj), (generic(obj) if judge else None)
             if judge and "property" not in out:
-                msg = gdiff(orig_g, cur_g)
-                if msg is None:
+                msg = None if orig_g == cur_g else gdiff(orig_g, cur_g)
+                if msg is None and cur_d != orig_d:
                     d = aoef.diff(cur_d, orig_d)
                     msg = None if d is None else "model layout: " + d
                 if msg:
@@ -226,3 +240,5 @@ def roundtrip(inp):
         return {**out, **canon_exc(e)}
     finally:
         aoef_impl.cleanup(path)
+        if nest is not None:
+            shutil.rmtree(nest, ignore_errors=True)
